@@ -7,5 +7,9 @@ from inkalint.rules import c08
 prog = load_dir(sys.argv[1])
 for name in ("search_negamax", "search_quiescence"):
     f = [v for k, v in prog.fns.items() if k.endswith("Search::" + name)][0]
-    for kind, key, line in c08.search_control_inventory(f, name):
+    voc = {}
+    for kind, key, line, governing in c08.search_control_inventory(f, name):
         print(line, key)
+        voc.setdefault(key.split("|if ")[0], set()).update(governing)
+    for k, v in sorted(voc.items()):
+        print("  vocabulary", k, sorted(a for a in v if not (a in ("cmp", "discr", "local") or a.startswith("op:") or a.startswith("const:"))))
